@@ -1,7 +1,7 @@
 (* C15: AVPs are typed by their exact dictionary entry or rejected.
    Proofs: Proofs/DecExtra.v (dispatch), Proofs/DictFacts.v (type-name table, key separation) *)
 Require Import DV.Base.Bytes DV.Base.Utf8 DV.Model.Leaf DV.Spec.Wire DV.Model.Avp DV.Model.Message
-  DV.Model.Dict DV.Proofs.DecTotal DV.Proofs.DecExtra DV.Proofs.DictFacts.
+  DV.Model.Dict DV.Proofs.DecTotal DV.Proofs.BuildFacts DV.Proofs.DecExtra DV.Proofs.DictFacts.
 Local Open Scope N_scope.
 
 (* the decoder consults the dictionary with exactly the (code, vendor) pair of the AVP header:
@@ -51,3 +51,10 @@ Theorem C15_every_known_type_usable : forall lim d c vd mf pf l cmd app fl hbh e
   msg_wireb m = true -> enc_msg m = Ok bs -> dec_msg lim d bs = Ok m.
 Proof. exact known_type_usable. Qed.
 Print Assumptions C15_every_known_type_usable.
+
+(* at EVERY depth: each AVP of an accepted message, however deeply nested, carries a value of exactly the type the dictionary
+   declares for its own (code, vendor) pair - the enclosing group's vendor, the other entries of its code, the names that
+   entry shares with others lend it nothing (`typed` recurses through Grouped values) *)
+Theorem C15_every_depth : forall lim d bs m, dec_msg lim d bs = Ok m -> typed_list d (m_avps m).
+Proof. exact dec_msg_typed. Qed.
+Print Assumptions C15_every_depth.
